@@ -1,17 +1,21 @@
 package cluster
 
 import (
+	"context"
 	"encoding/binary"
 	"encoding/json"
 	"fmt"
+	"runtime"
 	"sort"
 	"strings"
+	"sync"
 	"time"
 
 	gproto "google.golang.org/protobuf/proto"
 	"pgregory.net/rapid"
 	"reduction.dev/reduction/dkv"
 	"reduction.dev/reduction/dkv/recovery"
+	"reduction.dev/reduction/dkv/storage"
 	"reduction.dev/reduction/partitioning"
 	"reduction.dev/reduction/proto/snapshotpb"
 	"verifharness/hx"
@@ -29,22 +33,23 @@ type Fault struct {
 
 // Program is a cluster-level case.
 type Program struct {
-	Cfg       Config
-	NKeys     int
-	Splits    [][]int // per split: key index of each record
-	Faults    []Fault
-	Standby   int   // extra workers started up front
-	LatencyUs []int // KeyEventBatch latency per call (cyclic); exercises out-of-order completions
-	FinalN    int   // worker count of the read-back deployment (0 = same)
+	Cfg          Config
+	NKeys        int
+	Splits       [][]int // per split: key index of each record
+	Faults       []Fault
+	Standby      int   // extra workers started up front
+	LatencyUs    []int // KeyEventBatch latency per call (cyclic); exercises out-of-order completions
+	FinalN       int   // worker count of the read-back deployment (0 = same)
+	SlowArtifact bool  // savepoint runs: a periodic checkpoint completes while the artifact is assembled
 }
 
 // Stats of a run.
 type Stats struct {
 	Kills, KillsAfterCkpt, KillsDuringCkpt, JobRestarts, Ticks, Checkpoints int
-	NonIdentityAcks, Recoveries                                      int
-	Invocations                                                      int
-	Savepoints, SelfExits                                            int
-	BarriersBothSides, MaxKeyCalls, ResumedSplits                    int
+	NonIdentityAcks, Recoveries                                             int
+	Invocations                                                             int
+	Savepoints, SelfExits                                                   int
+	BarriersBothSides, MaxKeyCalls, ResumedSplits                           int
 }
 
 func buildData(p Program) (map[string][]Rec, map[string]int) {
@@ -66,7 +71,7 @@ func buildData(p Program) (map[string][]Rec, map[string]int) {
 	return data, totals
 }
 
-const stallAfter = 20 * time.Second
+const stallAfter = 15 * time.Second
 
 // Run executes a cluster Program with the exactly-once oracle.
 func Run(p Program, c *hx.Case) (st Stats, err error) {
@@ -650,4 +655,390 @@ func GenProgram(rt *rapid.T, faults []string, maxFaults int) Program {
 	}
 	p.LatencyUs = rapid.SliceOfN(rapid.SampledFrom([]int{0, 0, 0, 50, 300}), 0, 6).Draw(rt, "latency")
 	return p
+}
+
+// SPStats of a savepoint run.
+type SPStats struct {
+	Folded, DifferentWorkers, FlushSwaps, FilesWiped, RemainingRecords int
+}
+
+// RunSavepoint: run the job, request a savepoint at a drawn moment (possibly
+// while a periodic checkpoint is pending), wait for the artifact, stop
+// everything, DELETE the working storage and the job's checkpoint directory,
+// start a new job from the savepoint URI (same or different worker count) and
+// let it process the rest of the input under the exactly-once oracle.
+func RunSavepoint(p Program, c *hx.Case) (st SPStats, err error) {
+	data, totals := buildData(p)
+	w, err := NewWorld(p.Cfg, data, "", nil)
+	if err != nil {
+		return st, err
+	}
+	closed := false
+	defer func() {
+		if !closed {
+			w.Close()
+		}
+	}()
+	logTail := func(w *World) {
+		for _, l := range w.Log.Tail(50) {
+			c.Logf("%s", l)
+		}
+	}
+	w.AvoidRedeploy = func() bool { return c.Known("C01-survivor-redeployed-in-place") }
+	actions := make(chan Fault, 64)
+	pending := append([]Fault(nil), p.Faults...)
+	sort.SliceStable(pending, func(i, j int) bool { return pending[i].At < pending[j].At })
+	idx := 0
+	w.Gate = func(n int, kind, from, to string) {
+		w.mu.Lock()
+		for idx < len(pending) && pending[idx].At <= n {
+			select {
+			case actions <- pending[idx]:
+			default:
+			}
+			idx++
+		}
+		w.mu.Unlock()
+	}
+	flushSwaps := 0
+	prevPoint := w.pointHook
+	w.pointHook = func(name string) {
+		if name == "dkv.flush.swapped" {
+			w.mu.Lock()
+			flushSwaps++
+			w.mu.Unlock()
+		}
+		if prevPoint != nil {
+			prevPoint(name)
+		}
+	}
+	for i := 0; i < p.Cfg.Workers; i++ {
+		w.StartWorker()
+	}
+	w.Heartbeat()
+	check := func(w *World) error {
+		if v := w.H.Violations(); len(v) > 0 {
+			return hx.Errf("%s", strings.Join(v, "; "))
+		}
+		select {
+		case e := <-w.ErrC:
+			return hx.Errf("job error: %v", e)
+		default:
+		}
+		return nil
+	}
+	var spID, heldID uint64
+	spRequested := false
+	defer w.HoldAcks(false)
+	deadline := time.Now().Add(stallAfter)
+	// phase 1: until the savepoint artifact exists
+	for {
+		if time.Now().After(deadline) {
+			logTail(w)
+			if !spRequested {
+				return st, &hx.Inconclusive{Why: "the savepoint could not be requested (job never running)"}
+			}
+			return st, hx.Errf("savepoint %d was requested but its artifact did not appear within %v", spID, stallAfter)
+		}
+		select {
+		case f := <-actions:
+			switch f.Kind {
+			case "tick":
+				w.Tick()
+			case "foldtick":
+				// start a periodic checkpoint and keep it pending (its
+				// acknowledgements wait at the transport) until the savepoint is requested
+				w.mu.Lock()
+				before := len(w.StartCkpts)
+				w.mu.Unlock()
+				w.HoldAcks(true)
+				w.Tick()
+				w.mu.Lock()
+				if len(w.StartCkpts) > before {
+					heldID = w.StartCkpts[len(w.StartCkpts)-1]
+				} else {
+					w.HoldAcks(false)
+				}
+				w.mu.Unlock()
+			case "savepoint":
+				if spRequested {
+					break
+				}
+				w.mu.Lock()
+				started := append([]uint64(nil), w.StartCkpts...)
+				w.mu.Unlock()
+				pendingID := heldID
+				if p.SlowArtifact {
+					// The artifact is assembled slowly: while its first operator
+					// checkpoints file is being read, a further periodic checkpoint
+					// completes at the operators.
+					var once sync.Once
+					w.Loc.mu.Lock()
+					w.Loc.ReadHook = func(path string) {
+						if !strings.HasSuffix(path, "/checkpoints") {
+							return
+						}
+						once.Do(func() {
+							w.mu.Lock()
+							acks := len(w.OpAcks)
+							w.mu.Unlock()
+							w.Tick()
+							WaitFor(300*time.Millisecond, func() bool {
+								w.mu.Lock()
+								defer w.mu.Unlock()
+								return len(w.OpAcks) >= acks+p.Cfg.Workers
+							})
+						})
+					}
+					w.Loc.mu.Unlock()
+				}
+				id, serr := w.Job.HandleCreateSavepoint(context.Background())
+				w.HoldAcks(false)
+				heldID = 0
+				if serr != nil {
+					// not running yet: try again at the next call
+					pending = append(pending, Fault{At: f.At + 3, Kind: "savepoint"})
+					sort.SliceStable(pending[idx:], func(i, j int) bool { return pending[idx+i].At < pending[idx+j].At })
+					break
+				}
+				spID, spRequested = id, true
+				w.mu.Lock()
+				after := append([]uint64(nil), w.StartCkpts...)
+				w.mu.Unlock()
+				if pendingID != 0 {
+					st.Folded++
+					if id != pendingID {
+						logTail(w)
+						return st, hx.Errf("a savepoint was requested while checkpoint %d was in progress; it returned id %d instead of folding into the pending checkpoint", pendingID, id)
+					}
+					if len(after) != len(started) {
+						logTail(w)
+						return st, hx.Errf("a savepoint requested while checkpoint %d was in progress started another checkpoint: %v", pendingID, after[len(started):])
+					}
+				}
+			}
+		case <-w.Exited:
+			w.StartWorker()
+			w.Heartbeat()
+		default:
+			time.Sleep(150 * time.Microsecond)
+		}
+		if err := check(w); err != nil {
+			logTail(w)
+			return st, err
+		}
+		if !spRequested && idx >= len(pending) {
+			// the plan ran out before the job was running: request it now
+			pending = append(pending, Fault{At: int(w.gateN.Load()) + 1, Kind: "savepoint"})
+			w.gate("nudge", "harness", "harness")
+		}
+		if spRequested {
+			if uri, uerr := w.Job.HandleGetSavepointURI(context.Background(), spID); uerr == nil && uri != "" {
+				// the job keeps running undisturbed: let it go on a little
+				time.Sleep(300 * time.Microsecond)
+				if err := check(w); err != nil {
+					logTail(w)
+					return st, err
+				}
+				st.FlushSwaps = flushSwaps
+				// stop everything
+				for _, n := range w.Live() {
+					w.Kill(n)
+				}
+				fs := w.FS
+				w.Close()
+				closed = true
+				// Dead processes run no cleanups. Tables that were already obsolete
+				// before the stop are cleaned up now (their cleanups delete by name), not
+				// after the savepoint has copied files of the same names back into place.
+				time.Sleep(3 * time.Millisecond) // background flushes/compactions of the dead databases finish
+				for i := 0; i < 3; i++ {
+					runtime.GC()
+					time.Sleep(200 * time.Microsecond)
+				}
+				// wipe working storage and the job's checkpoints
+				loc := NewMemLoc(fs, "/job")
+				st.FilesWiped = loc.RemoveTree("/work") + loc.RemoveTree("/job/checkpoints")
+				// the first job's processes are dead: none of their objects may run a
+				// cleanup (they delete files) while the second job uses the storage
+				st2, err2 := restoreFromSavepoint(p, c, fs, uri, data, totals, st)
+				runtime.KeepAlive(w)
+				return st2, err2
+			}
+		}
+	}
+}
+
+func restoreFromSavepoint(p Program, c *hx.Case, fs *storage.MemoryFilesystem, uri string, data map[string][]Rec, totals map[string]int, st SPStats) (SPStats, error) {
+	cfg := p.Cfg
+	if p.FinalN > 0 {
+		cfg.Workers = p.FinalN
+	}
+	if cfg.Workers != p.Cfg.Workers {
+		st.DifferentWorkers++
+	}
+	w, err := NewWorld(cfg, data, uri, fs)
+	if err != nil {
+		return st, hx.Errf("starting a job from savepoint %s after all working storage was deleted: %v", uri, err)
+	}
+	defer w.Close()
+	w.AvoidRedeploy = func() bool { return c.Known("C01-survivor-redeployed-in-place") }
+	for i := 0; i < cfg.Workers; i++ {
+		w.StartWorker()
+	}
+	w.Heartbeat()
+	fail := func(err error) (SPStats, error) {
+		for _, l := range w.Log.Tail(50) {
+			c.Logf("%s", l)
+		}
+		return st, err
+	}
+	// wait for the deployment to have assigned every split
+	if !WaitFor(stallAfter, func() bool {
+		w.mu.Lock()
+		defer w.mu.Unlock()
+		if len(w.Rounds) == 0 {
+			return false
+		}
+		r := w.Rounds[len(w.Rounds)-1]
+		return len(r.Applied) == len(data) || len(w.H.violations) > 0
+	}) && !WaitFor(stallAfter, func() bool {
+		// (time has to pass for a job that keeps deploying to a node that is gone)
+		select {
+		case <-w.Exited:
+			w.StartWorker()
+			w.Heartbeat()
+		default:
+		}
+		w.PassTime()
+		time.Sleep(2 * time.Millisecond)
+		w.mu.Lock()
+		defer w.mu.Unlock()
+		return len(w.Rounds) > 0 && len(w.Rounds[len(w.Rounds)-1].Applied) == len(data)
+	}) {
+		return fail(hx.Errf("the job started from the savepoint never assigned its splits"))
+	}
+	w.mu.Lock()
+	round := w.Rounds[len(w.Rounds)-1]
+	remaining := 0
+	last := map[string]Rec{}
+	for split, recs := range data {
+		pos := round.Pos[split]
+		if pos < len(recs) {
+			remaining += len(recs) - pos
+			last[split] = recs[len(recs)-1]
+		}
+	}
+	w.mu.Unlock()
+	st.RemainingRecords = remaining
+	lastPass := time.Now()
+	supervise := func() {
+		select {
+		case <-w.Exited:
+			w.StartWorker()
+			w.Heartbeat()
+		default:
+		}
+		if time.Since(lastPass) > 30*time.Millisecond {
+			w.PassTime() // frozen time passes, so the job notices nodes that are gone
+			lastPass = time.Now()
+		}
+	}
+	ok := WaitFor(stallAfter, func() bool {
+		if len(w.H.Violations()) > 0 {
+			return true
+		}
+		supervise()
+		w.H.mu.Lock()
+		defer w.H.mu.Unlock()
+		for split, r := range last {
+			if w.H.Applied[r.Key+"/"+split] != r.Ord+1 {
+				return false
+			}
+		}
+		return true
+	})
+	if v := w.H.Violations(); len(v) > 0 {
+		return fail(hx.Errf("after restoring from the savepoint: %s", strings.Join(v, "; ")))
+	}
+	if !ok {
+		return fail(hx.Errf("the job restored from the savepoint did not process the remaining %d records within %v", remaining, stallAfter))
+	}
+	// final state through a checkpoint of the restored job
+	var lastID uint64
+	if s := w.Snapshots(); len(s) > 0 {
+		lastID = s[len(s)-1]
+	}
+	published := false
+	for attempt := 0; attempt < 300 && !published; attempt++ {
+		w.Tick()
+		published = WaitFor(100*time.Millisecond, func() bool {
+			s := w.Snapshots()
+			return len(s) > 0 && s[len(s)-1] > lastID
+		})
+		if attempt%20 == 19 {
+			w.PassTime()
+		}
+	}
+	if !published {
+		return fail(hx.Errf("the job restored from the savepoint cannot complete a checkpoint"))
+	}
+	got, err := readFinalState(w, p.Cfg.Groups)
+	if err != nil {
+		return fail(err)
+	}
+	for k, n := range totals {
+		if got[k] != n {
+			return fail(hx.Errf("after savepoint restore and the rest of the input: %s counts %d records, the input has %d", k, got[k], n))
+		}
+	}
+	return st, nil
+}
+
+// readFinalState decodes the newest job checkpoint into per (key/split) counts.
+func readFinalState(w *World, groups int) (map[string]int, error) {
+	snaps := w.Snapshots()
+	final := snaps[len(snaps)-1]
+	var jc *snapshotpb.JobCheckpoint
+	for path := range w.Loc.List() {
+		if strings.HasSuffix(path, ".snapshot") {
+			data, _ := w.Loc.Read(path)
+			var x snapshotpb.JobCheckpoint
+			if unmarshal(data, &x) == nil && x.Id == final {
+				jc = gproto.Clone(&x).(*snapshotpb.JobCheckpoint)
+			}
+		}
+	}
+	got := map[string]int{}
+	if jc == nil {
+		return got, hx.Errf("checkpoint %d not found in storage", final)
+	}
+	for _, oc := range jc.OperatorCheckpoints {
+		db := dkv.Open(dkv.DBOptions{FileSystem: w.FS}, []recovery.CheckpointHandle{{CheckpointID: oc.CheckpointId, URI: oc.DkvFileUri}})
+		w.mu.Lock()
+		w.dbs[db] = true
+		w.mu.Unlock()
+		var scanErr error
+		for e := range db.ScanPrefix(nil, &scanErr) {
+			k := e.Key()
+			if len(k) < 8 || k[2] != 0x00 {
+				continue
+			}
+			g := int(binary.BigEndian.Uint16(k[:2]))
+			if g < int(oc.KeyGroupRange.Start) || g >= int(oc.KeyGroupRange.End) {
+				continue
+			}
+			n := int(binary.BigEndian.Uint32(k[3:7]))
+			subject := string(k[7 : 7+n])
+			rest := k[7+n:]
+			split := string(rest[1+int(rest[0]):])
+			var v int
+			json.Unmarshal(e.Value(), &v)
+			got[subject+"/"+split] = v
+		}
+		if scanErr != nil {
+			return got, hx.Errf("reading checkpoint %d of %s: %v", final, oc.OperatorId, scanErr)
+		}
+	}
+	return got, nil
 }
